@@ -281,20 +281,24 @@ def m_c08(sc, res):
                 fails.append(_f(f"{h}/ascmhl/{name}: references {sorted(got_refs.items())} expected {sorted(exp_refs.items())} (direct children that wrote: {kids})", sc))
             if len(m["references"]) != len(got_refs):
                 fails.append(_f(f"{h}/ascmhl/{name}: duplicate references", sc))
-            # a previous path names the entry in the SAME history: relative to that history's root, i.e. a path that an
-            # earlier generation of that history recorded
+            # a previous path is a history-relative path that was recorded before: by this history (a rename inside
+            # it - the case C17 speaks about) or, when an entry moved over from another history of the tree, by that one.
+            # A path that NO history ever recorded under that spelling (e.g. one relative to the wrong root) is none.
             prevs = [(r["path"], r["prev"]) for r in m["records"] if r.get("prev")]
             if prevs:
-                hb_ = O.histories(io_["asc_before"]).get(h, {"gens": []})
-                earlier = set()
-                for g in hb_["gens"]:
-                    try:
-                        earlier |= {r["path"] for r in O.parse_manifest_bytes(g[2])["records"]}
-                    except Exception:
-                        pass
+                earlier, own = set(), set()
+                for h2, hd in O.histories(io_["asc_before"]).items():
+                    for g in hd["gens"]:
+                        try:
+                            ps = {r["path"] for r in O.parse_manifest_bytes(g[2])["records"]}
+                        except Exception:
+                            ps = set()
+                        earlier |= ps
+                        if h2 == h:
+                            own |= ps
                 for pth, pv in prevs:
                     if pv not in earlier:
-                        fails.append(_f(f"{h}/ascmhl/{name}: {pth!r} carries previous path {pv!r}, which no earlier generation of this history recorded (paths are relative to the history's own root; recorded there: {sorted(earlier)[:8]})", sc))
+                        fails.append(_f(f"{h}/ascmhl/{name}: {pth!r} carries previous path {pv!r}, which no earlier generation of this or any other history of the tree recorded (paths are relative to the root of the history that records them; recorded in this one: {sorted(own)[:8]})", sc))
             # nested root appears in the parent as a directory entry equal to the child's root hash
             if not sf:
                 for k in kids:
